@@ -41,6 +41,10 @@ def exact_crystals():
                    basis=[[a([0., 0., 0.])], [a([.125, .25, .375]), a([.875, .75, .625]), a([.875, .25, .625]), a([.125, .75, .375]),
                                              a([.5, .5, .5])]],
                    chem=1, cutoff=0.9)
+    # 2-D p4mm square: one 4-orbit on the cell edges + the cell centre (non-abelian point group: a doubly degenerate relaxation mode)
+    X['X6'] = dict(lattice=a([[1., 0.], [0., 1.]]),
+                   basis=[[a([0., 0.])], [a([.25, 0.]), a([.75, 0.]), a([0., .25]), a([0., .75]), a([.5, .5])]],
+                   chem=1, cutoff=0.6)
     return X
 
 
